@@ -482,9 +482,18 @@ func init() {
 		var samples []json.RawMessage
 		chains := map[string]bool{}
 		nontrivial := 0
+		nhang := 0
 		n, err := pipe.ReadCCases(*in, func(i int, c *pipe.CCase) {
 			var res []pipe.Mismatch
+			if nhang >= 5 {
+				return // circuit breaker: every hang costs a watchdog period and leaks a goroutine
+			}
 			pipe.ReplayCreation(i, c, &res)
+			for _, m := range res {
+				if m.Class == "hang" {
+					nhang++
+				}
+			}
 			chains[c.Inst.Op] = true
 			if len(c.Exp) > 1 {
 				nontrivial++
